@@ -384,6 +384,24 @@ class Gen(object):
                 scope.add(n, definite=False)
             self.features.add('walrus_in_comparison_chain')
             return
+        if r < 0.30 and r >= 0.27 and scope.kind in ('function', 'module') and self.dec_ok(2):
+            # a chain that opens regions in a plain statement, then a binding, then a closure reading it:
+            # the scope's final table must be the one after the chain
+            self.decisions += 2
+            e = self.expr(scope, avoid=(n,))
+            m_ = self.rng.choice([x for x in VARS if x != n])
+            # in a function of its own, so that the chain is the last construct of its scope that opens regions
+            self.emit(ind, 'def hh():')
+            if self.rng.random() < 0.5:
+                self.emit(ind + 1, 'v(q(%s) and (%s := %s))' % (self.readable(scope, (n, m_)), n, e))
+            else:
+                self.emit(ind + 1, 'v(v() < v(%s) < (%s := %s))' % (self.readable(scope, (n, m_)), n, e))
+            self.emit(ind + 1, '%s = v()' % m_)
+            self.emit(ind + 1, 'return call(lambda: v(%s))' % m_)
+            self.emit(ind, 'call(hh)')
+            scope.add('hh')
+            self.features.add('chain_then_binding_then_closure')
+            return
         if r < 0.17 and self.dec_ok(2):
             # four operands: the last one reads what the third bound
             self.decisions += 2
@@ -616,7 +634,13 @@ class Gen(object):
             b = self.pick_var(scope)
             if a == b:
                 b = 'w' if a != 'w' else 'z'
-            if rng.random() < 0.5:
+            r2 = rng.random()
+            if r2 < 0.25:
+                # a subscript element of the target list reads the element bound just before it
+                self.emit(ind, 'for %s, v()[%s] in it((0, 0)):' % (a, a))
+                self.features.add('for_target_subscript_reads_earlier_element')
+                b = a
+            elif r2 < 0.6:
                 self.emit(ind, 'for %s, %s in it((0, 0)):' % (a, b))
             else:
                 self.emit(ind, 'for %s, *%s in it((0, 0, 0)):' % (a, b))
